@@ -164,6 +164,88 @@ def shape_disc(f, d):
     return ""
 
 
+def _per_iteration(f, sink_pred, skip_pred):
+    """Every loop iteration containing a sink call reaches the sink or leaves through an allowed skip edge. -> (ok, n sinks)"""
+    sites = [(b, t) for b, t in f.calls() if sink_pred(callee(t))]
+    if not sites:
+        return False, 0
+    ok = True
+    seen_loops = set()
+    for b, t in sites:
+        lp = protocol.loop_of(f, b)
+        if lp is None:
+            ok = False
+            continue
+        head, some = lp
+        if head in seen_loops:
+            continue
+        seen_loops.add(head)
+        K = {bb for bb, _ in sites if protocol.loop_of(f, bb) == lp}
+        cut_edges = set()
+        for d, taken in cfg.guard_edges(f, b):
+            if not cfg.dominates(f, some, d):
+                continue
+            desc = shape_disc(f, d)
+            sw = f.blocks[d]["t"]
+            tk = {bb for _, bb in taken}
+            if skip_pred(f, d, desc):
+                for v, bb in [(v, bb) for v, bb in sw[2]] + [("else", sw[3])]:
+                    if bb not in tk:
+                        cut_edges.add((d, bb))
+        if head in cfg.reachable(f, some, cut_blocks=K, cut_edges=cut_edges):
+            ok = False
+    return ok, len(sites)
+
+
+def slicing(chk, facts):
+    """The slicer answers every request and keeps every requested field that exists."""
+    from lib import panics
+    rule = "C17.SLICE"
+    SL = EM + "slicing::"
+    # one answer per request, found or not
+    f = facts.fn("<" + SL + "EntitySlicer<'_> as " + EM + "loader::EntityLoader>::load_entities")
+    if f is None:
+        chk.lost(rule, "EntitySlicer::load_entities")
+    else:
+        chk.functions.add(f.name)
+        ok, n = _per_iteration(f, lambda c: c.endswith("Vec::<T, A>::push") or c.endswith("Vec::<T>::push"), lambda f_, d, desc: False)
+        uses_own_trie = any(callee(t).endswith("AccessTrie>::slice_entity") for _, t in f.calls())
+        chk.ob(rule, "load_entities", ok and n >= 2 and uses_own_trie, "every request gets exactly one answer (push on the found and on the missing branch: %d sites, no iteration without: %s) and a found entity is sliced with the request's access trie: %s" % (n, ok, uses_own_trie),
+               where=f.where(), fn=f.name)
+    g = facts.fn("<" + SL + "EntitySlicer<'_> as " + EM + "loader::EntityLoader>::load_ancestors")
+    if g is None:
+        chk.lost(rule, "EntitySlicer::load_ancestors")
+    else:
+        chk.functions.add(g.name)
+        ok, n = _per_iteration(g, lambda c: c.endswith("Vec::<T, A>::push") or c.endswith("Vec::<T>::push"), lambda f_, d, desc: False)
+        desc_calls = sorted({callee(t).split("::")[-1] for _, t in g.calls() if callee(t).startswith("cedar_policy_core::ast::entity::Entity::is_")})
+        # a required ancestor that the entity descends from is kept: the true edge of is_descendant_of reaches the insert
+        kept = False
+        for b, t in g.calls():
+            if callee(t).endswith("Entity::is_descendant_of"):
+                ins = {bb for bb, tt_ in g.calls() if callee(tt_).endswith("HashSet::<T, S, A>::insert")}
+                for sb, m in protocol.bool_edges(g, b):
+                    nx = {bb for bb, tt_ in g.calls() if callee(tt_).endswith("::next")}
+                    kept = bool(cfg.reachable(g, m[True], cut_blocks=nx) & ins) and not (cfg.reachable(g, m[False], cut_blocks=nx) & ins)
+        chk.ob(rule, "load_ancestors", ok and desc_calls == ["is_descendant_of"] and kept, "every ancestors request is answered (%s); a required ancestor is kept exactly when the entity is_descendant_of it (tests used: %s, kept on the true edge only: %s)" % (ok, desc_calls, kept),
+               where=g.where(), fn=g.name)
+    # slice_entity / slice_val: every requested child that exists is kept, sliced with the child's own trie
+    for nm in ("slice_entity", "slice_val"):
+        h = facts.fn(EM + "slicing::<impl " + EM + "AccessTrie>::" + nm)
+        if h is None:
+            chk.lost(rule, "AccessTrie::" + nm)
+            continue
+        chk.functions.add(h.name)
+        ok, n = _per_iteration(h, lambda c: c.endswith("::insert") and ("HashMap" in c or "BTreeMap" in c),
+                               lambda f_, d, desc: "Option" in desc)     # `if let Some(..) = entity.get(field)`: an absent field is not kept
+        rec = [t for _, t in h.calls() if callee(t).endswith("AccessTrie>::slice_val")]
+        drops = sorted({callee(t).split("::")[-1] for _, t in h.calls() if callee(t).split("::")[-1] in WORKLIST_DROPS})
+        ok = ok and not drops
+        chk.ob(rule, nm, ok and bool(rec), "every requested child present in the data is inserted into the slice (no iteration skips it: %s) after slicing it with the child's trie (%d recursive slice_val)" % (ok, len(rec)),
+               where=h.where(), fn=h.name)
+
+
 def check(chk, facts):
     union(chk, facts)
     load(chk, facts)
+    slicing(chk, facts)
